@@ -27,13 +27,14 @@ func registerC10() {
 			"greedy readers that always fill the buffer, final chunk with io.EOF, occasional (0,nil), yields); for each of the six entry points: bytes delivered <= frame " +
 			"length, == header+data+2 after a successful Decode/CheckIntegrity, result equal to the whole-buffer result; the same frames also through bufio readers (16 and 4096 bytes), bytes.Buffer, strings.Reader behind io.LimitReader, io.MultiReader a reader offering ReadByte/UnreadByte/Seek/ReadAt/WriteTo/Len with short reads, and *os.File (a regular file on disk, and a pipe); family huge-frames: frames of 6, 9 and 17 MiB followed by poison bytes and another file, same consumption rules; family chains: concatenations of 1-5 files in PRNG " +
 			"order: DecodeChained returns one File per input equal to the solo decode, DecodeHeader / DecodeHeaderAndFileID report Decode's header and file_id. A case is one " +
-			"(file, chunker) pair or one chain; non-trivial: the call succeeded and consumption was measured; distinct by (input digest, chunker)",
+			"(file, chunker) pair or one chain; family announced-sizes: a valid header (12 or 14 bytes, header CRC right or zero) announcing a data size near 2^32, 2^31, 2^24, 2^16 or a PRNG value, followed by far fewer bytes than announced (nothing, two bytes, a whole valid record area with its CRC, the 14-byte header's own checksum continued to zero): a call that returns success must have consumed header+announced+2 bytes, which the store does not hold, so every call must fail, and none may panic; non-trivial: the call succeeded and consumption was measured; distinct by (input digest, chunker)",
 		Assume:        []string{"record.distance of records whose compressed_speed_distance expands is excluded from solo-vs-chained comparison (known finding F5, decided in C18)"},
 		MinNontrivial: 300,
 		Families: []lib.Family{
 			{Name: "frames", N: func(t string) uint64 { return tierN(t, 120*14, 2400*14) }, Run: c10Frame},
 			{Name: "huge-frames", N: func(t string) uint64 { return 3 }, Run: c10Huge},
 			{Name: "chains", N: func(t string) uint64 { return tierN(t, 300, 6000) }, Run: c10Chain},
+			{Name: "announced-sizes", N: func(t string) uint64 { return tierN(t, 400, 8000) }, Run: c10Announced},
 		},
 	})
 }
@@ -206,6 +207,65 @@ func c10Huge(c *lib.Ctx, idx uint64) {
 	}
 	c.Count("huge_frame_bytes", int64(len(frame)))
 	c.Nontrivial(frame[:4096], []byte{byte(idx)})
+}
+
+// c10Announced: see the rule text. The announced size never fits what follows the header.
+func c10Announced(c *lib.Ctx, idx uint64) {
+	rng := lib.NewRand("C10.announced", idx)
+	frame, _ := framePool(idx % 60)
+	hs := int(frame[0])
+	if hs != 12 && hs != 14 || len(frame) < hs+2 {
+		return
+	}
+	sizes := []uint64{0xFFFFFFFF, 0xFFFFFFFE, 0xFFFFFFFD, 0xFFFFFFFC, 0xFFFFFFF0, 0xFFFF0000, 0x80000000, 0x7FFFFFFF, 0x7FFFFFFE, 0x7FFFFFFD, 0x80000001, 0x01000000, 0x00FFFFFE, 0x00010000 + uint64(len(frame))}
+	d := sizes[idx/60%uint64(len(sizes))]
+	if idx/60 >= uint64(len(sizes)) {
+		d = uint64(len(frame)) + 1 + rng.U64()%(1<<32-uint64(len(frame))-1)
+	}
+	hdr := append([]byte{}, frame[:hs]...)
+	hdr[4], hdr[5], hdr[6], hdr[7] = byte(d), byte(d>>8), byte(d>>16), byte(d>>24)
+	if hs == 14 {
+		crc := ref.CRC(hdr[:12])
+		if rng.Chance(1, 5) {
+			crc = 0
+		}
+		hdr[12], hdr[13] = byte(crc), byte(crc>>8)
+	}
+	var body []byte
+	switch rng.Intn(5) {
+	case 0:
+	case 1:
+		body = []byte{0, 0}
+	case 2:
+		body = append(body, frame[hs:]...) // the whole record area and its CRC
+	case 3:
+		// two bytes that bring the running checksum of everything so far to zero
+		crc := ref.CRC(hdr)
+		body = []byte{byte(crc), byte(crc >> 8)}
+	case 4:
+		body = append(append(body, frame[hs:len(frame)-2]...), 0, 0)
+		crc := ref.CRC(append(append([]byte{}, hdr...), body[:len(body)-2]...))
+		body[len(body)-2], body[len(body)-1] = byte(crc), byte(crc>>8)
+	}
+	store := append(hdr, body...)
+	c.SetInflight(store)
+	want := uint64(hs) + d + 2
+	for _, ep := range []string{"Decode", "CheckIntegrity", "DecodeChained"} {
+		r := &lib.Reader{Data: store, Limit: len(store), Ch: lib.Chunkers(rng)[rng.Intn(14)]}
+		var res lib.CallResult
+		o := lib.Guard(func() { res = lib.Call(ep, r) })
+		c.Eval()
+		if o.Panicked || o.Hang {
+			c.Violation(store, "%s panicked/hung on a header that announces %d data bytes followed by %d bytes: %s", ep, d, len(body), o.Panic)
+			return
+		}
+		if res.Err == nil {
+			c.Violation(store, "%s succeeded on a header that announces %d data bytes: a success consumes %d bytes, the reader only had %d (consumed %d)", ep, d, want, len(store), r.Pos)
+			return
+		}
+	}
+	c.Count("announced_size_cases", 1)
+	c.Nontrivial(store)
 }
 
 func c10Frame(c *lib.Ctx, idx uint64) {
